@@ -72,8 +72,18 @@ def run(ctx):
     if ctx.quick:
         gen = rng.sample(gen, 1500)
     tlc_cases = [(dict(CFGS[i % len(CFGS)], hook=hook), clientsim.tokens_to_schedule(CFGS[i % len(CFGS)], toks, i)) for i, (hook, toks) in enumerate(gen)]
+    # names: the instance with expected / announced device names (C06 at the client level) and its histories
+    ctx.tlc("MC_Client", "MC_Client_names.cfg", timeout=1200)
+    rn = ctx.tlc("MC_Client", "MC_Client_names_gen.cfg", workers=1, timeout=1200)
+    ngen = parse_tagged(sorted(set(rn.raw_printed)), "SCHED")
+    if ctx.quick:
+        ngen = rng.sample(ngen, min(len(ngen), 800))
+    ncfgs = [dict(noise=False, login=False), dict(noise=True, login=False)]
+    names_tlc = [(dict(ncfgs[i % 2], hook="none"), clientsim.tokens_to_schedule(ncfgs[i % 2], toks, i)) for i, (hook, toks) in enumerate(ngen)]
     fams = {
         "tlc": tlc_cases,
+        "names_tlc": names_tlc,
+        "names": clientsim.names_family(CFGS),
         "stages": clientsim.stage_family(CFGS),
         "gate_sweep": clientsim.gate_sweep(CFGS),
         "stop_hook": clientsim.stop_hook_family(CFGS),
